@@ -1,6 +1,7 @@
 package main
 
 import (
+	"strings"
 	"encoding/json"
 	"os"
 	"sort"
@@ -67,8 +68,10 @@ func loadKnownFindings() {
 func openKF(prop string) []string {
 	out := []string{}
 	for id, p := range knownFindingProp {
-		if p == prop {
-			out = append(out, id)
+		for _, q := range strings.Split(p, ",") {
+			if strings.TrimSpace(q) == prop {
+				out = append(out, id)
+			}
 		}
 	}
 	sort.Strings(out)
@@ -225,6 +228,24 @@ func seqProfile0(prop, tier string) *SeqProfile {
 				return genHistory(id, seed, gg)
 			},
 			Rule: "C13: (i) every file of every state parses completely with the reference decoder and re-encodes to identical bytes (layout events), (ii) directories written by the reference ENCODER (both versions, four index layouts, index absent or in the other version, holes, empty head) are opened, read and extended by the real code, (iii) key/value lengths 0..300 (+64KiB..1MiB) and times over the int64 microsecond range through the file reader (head) and the mmap reader (closed segments), (iv) Size(m) against the documented layout and against the bytes actually added, Stat against the file-system totals.",
+		}
+	case "C05", "C06":
+		g.Steps = tierN(tier, 9, 12)
+		g.MaxBatch = 3
+		g.VLens = []int{0, 3, 10, 24}
+		g.KeyPool = []string{"n", "a", "b", "g"}
+		g.WDeleteMulti, g.WTrim, g.WCompact, g.ROPct = 0, 0, 0, 0
+		g.WPublish, g.WDelete, g.WReopen, g.WSync, g.WGC = 40, 30, 12, 8, 2
+		g.Rollovers = []int64{60, 100, 150, 300, 5000}
+		g.TimeMode = "mono"
+		ploss := prop == "C06"
+		return &SeqProfile{Prop: prop, Gen: g, NRandom: tierN(tier, 40, 600), Module: "TraceCrash.tla", Cfg: "TraceCrash.cfg",
+			RunHist: func(r *SeqRun, h *History, tw *TraceWriter, root string) {
+				c := &crashRunner{r: r, h: h, tw: tw, root: root, torn: tierS(r.Tier, "classes", "all"), depth2: !ploss, plossOn: ploss, crashOn: !ploss}
+				c.run()
+			},
+			Rule: "a case is one crash / power-loss image of a tapped real run: the directory after every file-system step of every operation (create, header, record/item append, fsync, rename, remove, dirsync), the interrupted append cut at byte positions (classes in quick, every byte in thorough), for C05 also the directory after every step of the recovery itself (depth 2), for C06 every file cut back between its fsynced and its written length; each image is opened by the real code with Recover, observed (scan, Get sweep, key/time lookups, Stat), recovered again (bytes unchanged), appended to and Checked; TLC judges CrashRecoverOK / PowerLossOK.",
+			Assume: []string{"8-byte file headers are written atomically", "directory operations are durable in program order", "the tap reports every file-system mutation (a missing call site would hide crash points, not raise alarms)"},
 		}
 	case "C07":
 		return &SeqProfile{Prop: prop, NRandom: 0, Module: "TraceFrames.tla", Cfg: "TraceFrames.cfg",
